@@ -263,10 +263,10 @@ func (o *C18) AfterEnd(w *World) {
 			w.Fail("C18", "distinct-quorum", "holders", fmt.Sprintf("holder list changed at epoch %d although the distinct reporters hold only %d of %s voting power", epoch, sumAll, total))
 			return
 		}
-		// more than two thirds of stake reported the identical list (slack for the 65535 normalisation)
+		// MORE than two thirds of stake reported the identical list. No slack is owed for the hub's 65535-slot
+		// normalisation: its shares are rounded down, so a sum above 65535*2/3 implies an exact share above 2/3
 		lhs := new(big.Rat).SetFrac(big.NewInt(sumSame), total.BigInt())
-		lim := new(big.Rat).Sub(big.NewRat(2, 3), new(big.Rat).SetFrac64(nVals+1, 65535))
-		if lhs.Cmp(lim) < 0 {
+		if lhs.Cmp(big.NewRat(2, 3)) <= 0 {
 			w.Fail("C18", "holders-two-thirds", "adopted", fmt.Sprintf("a holder list was adopted although validators reporting exactly that list hold %d of %s voting power", sumSame, total))
 			return
 		}
